@@ -377,6 +377,8 @@ def run(ctx):
     path = None
     if plan != "ack":
         fs.arm_write(plan, f.draw(400), [errno.ENOSPC, errno.EIO][f.draw(2)])
+    if cfg.chance(1, 3):
+        out = None  # default: the combined domain is written into the agents' directory itself
     try:
         path = conv.export_combined_domain(add_dummy_actions=dummy, output_folder=out)
     except OSError:
@@ -389,7 +391,7 @@ def run(ctx):
         raise Violation("C17/combined-export-raised", "export_combined_domain", f"{type(e).__name__}: {e}")
     fs.disarm()
     if fault:
-        expected = out / f"{W.D['name']}_combined_domain.pddl"
+        expected = (out if out is not None else ddir) / f"{W.D['name']}_combined_domain.pddl"
         if expected.exists():
             ctx.new_epoch()
             try:
